@@ -340,11 +340,14 @@ class WorkflowRecovery:
                                 task_type=stage.type,
                             )
                         )
-                elif any(not s.status.is_complete for s in stage.before_stages()):
+                elif not stage.context.get("_plan_pending") and any(
+                    not s.status.is_complete for s in stage.before_stages()
+                ):
                     # The stage's own tasks start only once its before stages are
                     # done (ContinueParentStage). The before stages are recovered
                     # as stages in their own right; starting a task here would run
-                    # it ahead of them and strand the parent.
+                    # it ahead of them and strand the parent. (A stage still to be
+                    # planned is re-queued below: its re-plan starts them.)
                     continue
                 elif not_started_tasks and stage.start_time is not None and not stage.context.get("_plan_pending"):
                     first_task = not_started_tasks[0]
